@@ -35,4 +35,20 @@ PROPS = {
         ],
         "spec_ops": {"spec.c03.vote3": "vote3", "spec.c03.vote2": "vote2", "spec.c03.counts": "combine", "spec.c03.pair": "combine"},
     },
+    "C06": {
+        "thm": "SameVerif.Thm.C06",
+        "suites": ["header"],
+        "technique": "Lean 4 theorems (parser accepts iff grammar decomposition exists; stored text = longest matched prefix; error kinds) + hash-exhaustive 1-edit neighbourhood correspondence + independent offset-based shape oracle",
+        "level_text": "Proved in Lean for all byte strings: MessageHeader::new (model) accepts iff the text is ASCII and begins with ZCZC-ORG-EEE(-PSSCCC)+ +TTTT-JJJHHMM-CALLSIGN-; the stored text is exactly the matched prefix, is the LONGEST header-shaped prefix (greedy callsign), the time offset is the position of '+'; "
+                      "rejections are NotAscii iff non-ASCII, Malformed otherwise, never another kind. The model (a hand-rolled matcher for the regex) is tied to the real regex/accessors on the complete 1-edit neighbourhood (131 symbols incl. multi-byte UTF-8, substitute/insert/delete at every position) of grammar-generated seeds by hash, "
+                      "plus sampled 2-3-edit and unstructured inputs; every individually listed answer (constructor result, every accessor, re-parse, byte-slice dispatch) is also judged by an independent offset-based Lean oracle.",
+        "level_note": "Accessor-equals-field and panic-freedom of accessors are currently established by correspondence + oracle on every sampled input (the model has explicit Panic branches and none was ever taken), not yet by theorem; regex crate semantics are modelled, not verified.",
+        "rule": "seeds: grammar-generated headers with every location count 1..31 and 32, callsign length 3..8 (some with '-' inside), 6 kinds of trailing bytes; per seed the complete 1-edit neighbourhood at every position (stride 3 for seeds > 80 bytes in quick) as one hash request per position; "
+                "150-300 sampled 2-3-edit variants per seed; unstructured strings over 3 alphabets; msg3/msgstr dispatch requests incl. invalid UTF-8. Non-trivial = non-empty input; distinct by request text. counters.neighbourhood_strings_hashed is the number of strings inside hash requests.",
+        "exhaustive": False,
+        "exhaustive_note": "each hdrnbhd request enumerates its neighbourhood completely on both sides; the set of seeds is sampled",
+        "assumptions": ["regex crate leftmost-first semantics is modelled by checkHeader; tie is differential (neighbourhood-exhaustive around seeds)"],
+        "spec_ops": {"spec.c06.hdr": "hdr", "spec.c06.msg3": "msg3"},
+        "op_specs": {"hdr": "spec.c06.hdr"},
+    },
 }
